@@ -258,6 +258,7 @@ let apply (w : world) (line : string) : string =
   | "EDIS" -> w.enc <- enc_disable w.enc; "enc " ^ enc_state_str w.enc
   | "EEN" -> w.enc <- enc_enable w.enc; "enc " ^ enc_state_str w.enc
   | "EENMAX" -> w.enc <- enc_enable_max w.enc (nos t.(1)); "enc " ^ enc_state_str w.enc
+  | "EISEN" -> if w.enc.re_on then "ok 1" else "ok 0"
   | "ENCAP" | "EEXT" ->
     let pdu = nbytes (bytes_tok t.(1)) in
     let before = gen_bytes (ios t.(5)) (ios t.(6)) in
